@@ -31,13 +31,38 @@ func Find(p Meta, path string) Definition {
 		return Find(p, ident)
 	}
 	if hd, ok := p.(HasDataDefinitions); ok {
-		return hd.Definition(path)
+		if def := hd.Definition(path); def != nil {
+			return def
+		}
+		// nodes of a choice nested inside a case of another choice are not indexed by the container
+		return findInChoices(hd.DataDefinitions(), path)
 	}
 	if choice, ok := p.(*Choice); ok {
 		if c, found := choice.Cases()[path]; found {
 			return c
 		}
 		return nil
+	}
+	return nil
+}
+
+func findInChoices(defs []Definition, ident string) Definition {
+	for _, def := range defs {
+		choice, isChoice := def.(*Choice)
+		if !isChoice {
+			continue
+		}
+		for _, caseIdent := range choice.CaseIdents() {
+			kase := choice.Cases()[caseIdent]
+			for _, kdef := range kase.DataDefinitions() {
+				if _, nested := kdef.(*Choice); !nested && kdef.Ident() == ident {
+					return kdef
+				}
+			}
+			if found := findInChoices(kase.DataDefinitions(), ident); found != nil {
+				return found
+			}
+		}
 	}
 	return nil
 }
